@@ -72,17 +72,17 @@ type Case struct {
 }
 
 type model struct {
-	c       *Case
-	base    *big.Int
-	poolLen int
-	n       uint64
-	blockSz *big.Int
-	owner   map[uint64]int             // block -> client index
-	held    map[int][]net.IPNet        // client -> prefixes it was told it holds, in order
-	validAt map[string]lifetimeRecord  // client|prefix -> last valid lifetime told
-	last    map[int][]byte             // client -> last wire message
-	lastSym map[int]*Msg               // client -> symbolic form of the last message
-	heldAtLast map[int]int             // client -> len(held) right after the reply to its last message
+	c          *Case
+	base       *big.Int
+	poolLen    int
+	n          uint64
+	blockSz    *big.Int
+	owner      map[uint64]int            // block -> client index
+	held       map[int][]net.IPNet       // client -> prefixes it was told it holds, in order
+	validAt    map[string]lifetimeRecord // client|prefix -> last valid lifetime told
+	last       map[int][]byte            // client -> last wire message
+	lastSym    map[int]*Msg              // client -> symbolic form of the last message
+	heldAtLast map[int]int               // client -> len(held) right after the reply to its last message
 }
 
 type lifetimeRecord struct {
